@@ -3,6 +3,7 @@ from __future__ import annotations
 
 import z3
 
+from . import vals as VV_
 from .vals import (ANY, B, BOOL, I, INT, R, REAL, STR, T, TDict, TList, TSet, V, Val,
                    as_int, as_ref, fresh_int, fresh_name, fresh_val, type_invariant,
                    v_int, v_ref)
@@ -101,6 +102,7 @@ class State:
         self.nonneg: set = set()                # ids of Int terms known to be >= 0
         self.fresh: set = set()                 # ids of reference terms allocated by new_ref
         self.havoc_parent: dict = {}            # id of an alloc-only havoc constant -> array it extends
+        self.snap: dict = {}                    # list reference id -> (items, tail) concrete snapshots
 
     def copy(self) -> 'State':
         s = State.__new__(State)
@@ -124,6 +126,7 @@ class State:
         s.nonneg = set(self.nonneg)
         s.fresh = set(self.fresh)
         s.havoc_parent = dict(self.havoc_parent)
+        s.snap = dict(self.snap)
         return s
 
     # -- assumptions ----------------------------------------------------------
@@ -236,7 +239,11 @@ class State:
             tys = {i.ty for i in items}
             ety = tys.pop() if len(tys) == 1 else ANY
         v = v_ref(r, None).with_ty(TList(ety))
-        v.items = list(items)        # concrete snapshot (valid until mutated)
+        prev, VV_.CUR[0] = VV_.CUR[0], self
+        try:
+            v.items = list(items)        # concrete snapshot, kept in this state
+        finally:
+            VV_.CUR[0] = prev
         return v
 
     def new_list_sym(self, n, elems, ety: T = ANY) -> V:
@@ -290,6 +297,11 @@ class State:
             facts.append(fa([x], z3.Implies(z3.Select(dom, x), z3.And(Val.is_num(x), z3.IsInt(Val.nv(x)))), z3.Select(dom, x)))
         elif kty.kind == 'real':
             facts.append(fa([x], z3.Implies(z3.Select(dom, x), Val.is_num(x)), z3.Select(dom, x)))
+        vty = dv.ty.args[1] if len(dv.ty.args) == 2 else ANY
+        mp = self.read(r, '$map')
+        vfacts = type_invariant(V(z3.Select(mp, x), vty))
+        if vfacts:
+            facts.append(fa([x], z3.Implies(z3.Select(dom, x), z3.And(*vfacts)), z3.Select(mp, x)))
         self.pc.extend(facts)
 
     def dict_has(self, dv: V, key: V):
